@@ -781,9 +781,11 @@ class Manager:
         if not self.running:
             return
 
-        self._running = False
-
+        # queue `stopped` before the flag is cleared: a loop running in another
+        # thread must not be able to leave run() in between
         self.fire(stopped(self))
+
+        self._running = False
 
         if self.root._executing_thread is None:
             for _ in range(3):
